@@ -15,12 +15,14 @@ from .. import core, build_repo
 
 ID = "C03"
 LEVEL = "other"
-RULE = ("in-process cases = pairs of conditions over 4 typed integer parameters from the grammar (literals with suffixes, "
-        "variables, unary - ~ !, + - * & | ^, comparisons, && ||), the second derived from the first by a relating mutation "
-        "(negated / flipped comparator, swapped operands, constant +-1, other spelling of the constant, !, !!, != 0, "
-        "&&/|| with a further atom) or independent; C and C++; non-trivial = the real code answers true for at least one "
-        "of the relations or reports a finding, or the two conditions share an operand.  CLI cases = generated functions "
-        "with nested / sequential / else-if / early-return conditions and assignments in between")
+RULE = ("in-process cases = pairs of conditions over 4 typed integer parameters (10 integer types) from the grammar (literals with "
+        "U/L/UL suffixes and hex, variables, unary - ~ !, + - * & | ^, comparisons, && ||, bit tests next to their mask constant), "
+        "the second derived from the first by a relating mutation (negated / flipped comparator, operands swapped at any depth, "
+        "constant +-1/+-2, other spelling of the constant, !, !!, != 0, == 1/2, &&/|| with a further atom, De Morgan) or independent; "
+        "C and C++; non-trivial = the real code answers true for at least one relation or reports a finding.  CLI cases = generated "
+        "functions with nested / sequential-after-early-return / else-if / plain conditions and assignments in between (half from "
+        "the hazard-free profile: int/long, small non-negative constants, no ~); one case per verdict of a listed id, checked "
+        "against the truth values of the flagged node in all UB-free native runs")
 EXPLANATION = ("Proved (Lean, all expressions, all environments, C17 semantics with UB as 'no value'): soundness of the model of "
                "isSameExpression and isOppositeCond(isNot=false/true) under decidable side conditions, of the out-of-type-range "
                "verdict and of the bit-and/bit-or comparison verdict; counterexample theorems where the code's rule is unsound. "
@@ -28,7 +30,6 @@ EXPLANATION = ("Proved (Lean, all expressions, all environments, C17 semantics w
                "model's semantics against gcc. Partial: the theorems cover the pure integer fragment (no calls, casts, floats, "
                "pointers, followVar, containers); knownConditionTrueFalse and the flow part of multiCondition2 (modification "
                "scan between the conditions) are only validated per generated program by execution, not proved.")
-THEOREMS = []
 MODULES = ["Cppcheck.Props.C03"]
 
 # ------------------------------------------------------------------------------------------------------------------
@@ -126,8 +127,12 @@ def tree_size(e):
 
 
 class Gen:
-    def __init__(self, rng):
+    """safe = True: the fragment without integer-conversion hazards (int / long variables, small non-negative decimal
+    constants, no `~`): a violation there is never absorbed by a known-finding class"""
+
+    def __init__(self, rng, safe=False):
         self.rng = rng
+        self.safe = safe
 
     def wchoice(self, pairs):
         tot = sum(w for _, w in pairs)
@@ -139,10 +144,17 @@ class Gen:
         return pairs[-1][0]
 
     def params(self):
+        if self.safe:
+            return [(n, self.wchoice([("s3", 4), ("s4", 1)])) for n in "abcd"]
         return [(n, self.wchoice(VAR_TYPE_WEIGHTS)) for n in "abcd"]
 
     def const(self, near=None):
         r = self.rng
+        if self.safe:
+            if near is not None and r.random() < 0.7:
+                return max(0, near + r.choice([-2, -1, 1, 2, 0]))
+            return self.wchoice([(0, 3), (1, 4), (2, 3), (3, 2), (5, 2), (7, 2), (8, 1), (16, 1), (100, 1), (127, 1), (255, 1),
+                                 (256, 1), (65535, 1), (70000, 1), (r.randrange(0, 300), 3)])
         if near is not None and r.random() < 0.7:
             v = near + r.choice([-2, -1, 1, 2, 0])
         else:
@@ -159,7 +171,7 @@ class Gen:
             v = self.const(near)
         neg = v < 0
         a = -v if neg else v
-        style = self.wchoice([("d", 10), ("x", 2), ("u", 3), ("l", 2), ("ul", 1)])
+        style = self.wchoice([("d", 10), ("x", 2)]) if self.safe else self.wchoice([("d", 10), ("x", 2), ("u", 3), ("l", 2), ("ul", 1)])
         if style == "x":
             s = "0x%x" % a
         else:
@@ -183,7 +195,7 @@ class Gen:
         if x < 0.62:
             return self.lit()
         if x < 0.70:
-            return ("un", r.choice(["neg", "compl"]), self.term(depth + 1))
+            return ("un", "neg" if self.safe else r.choice(["neg", "compl"]), self.term(depth + 1))
         op = self.wchoice([("add", 4), ("sub", 3), ("mul", 2), ("band", 4), ("bor", 3), ("bxor", 1)])
         l = self.term(depth + 1)
         rr = self.lit() if r.random() < 0.5 else self.term(depth + 1)
@@ -200,6 +212,12 @@ class Gen:
         if x < 0.14:
             return ("un", "lnot", self.term())
         op = r.choice(CMPS)
+        if x < 0.24:
+            # bit test against a constant next to the mask: `(t & k) op k'`, `(t | k) op k'`
+            k = r.choice([1, 3, 7, 8, 16, 255, 256]) if self.safe else abs(self.const())
+            mask = ("bin", r.choice(["band", "band", "bor"]), self.term(1), self.lit(k))
+            rr = self.lit(max(0, k + r.choice([-1, 0, 0, 1])))
+            return ("bin", op, mask, rr) if r.random() < 0.85 else ("bin", op, rr, mask)
         l = self.term()
         rr = self.lit() if r.random() < 0.6 else self.term()
         if r.random() < 0.15:
@@ -216,33 +234,53 @@ class Gen:
     def mutate(self, c, depth=0):
         r = self.rng
         k = c[0]
-        choices = ["same", "not", "notnot", "ne0", "eq0", "and_atom", "or_atom", "fresh"]
+        choices = ["same", "not", "notnot", "ne0", "eq0", "and_atom", "or_atom", "fresh", "deepswap", "deepswap"]
         if k == "bin" and c[1] in CMPS:
             choices += ["negcmp", "flipswap", "negflip", "othercmp", "const", "const", "respell", "swapraw", "sub", "eq1", "ne1", "boolk"] * 2
         if k == "bin" and c[1] in ("land", "lor"):
             choices += ["demorgan", "swap", "mutl", "mutr", "dropl", "dropr", "otherlogic"] * 3
-        if k == "bin" and c[1] in ("add", "mul", "band", "bor", "bxor"):
+        if k == "bin" and c[1] in ("add", "sub", "mul", "band", "bor", "bxor"):
             choices += ["swap"] * 3
         if k == "un" and c[1] == "lnot":
             choices += ["strip", "strip_ne0"] * 3
         m = r.choice(choices)
         if m == "same":
             return c
+        if m == "deepswap":
+            # swap the operands of one arithmetic / bitwise operator somewhere below (commutative or not)
+            paths = []
+            def walk(t, path):
+                if t[0] == "bin":
+                    if t[1] in ("add", "sub", "mul", "band", "bor", "bxor"):
+                        paths.append(path)
+                    walk(t[2], path + (2,)); walk(t[3], path + (3,))
+                elif t[0] == "un":
+                    walk(t[2], path + (2,))
+            walk(c, ())
+            if not paths:
+                return c
+            def rebuild(t, path):
+                if not path:
+                    return ("bin", t[1], t[3], t[2])
+                lst = list(t)
+                lst[path[0]] = rebuild(t[path[0]], path[1:])
+                return tuple(lst)
+            return rebuild(c, r.choice(paths))
         if m == "not":
             return ("un", "lnot", c)
         if m == "notnot":
             return ("un", "lnot", ("un", "lnot", c))
         if m == "ne0":
-            z = ("lit", r.choice(["0", "0", "0", "0U", "0x0", "0L"]))
+            z = ("lit", "0" if self.safe else r.choice(["0", "0", "0", "0U", "0x0", "0L"]))
             return ("bin", "ne", c, z) if r.random() < 0.7 else ("bin", "ne", z, c)
         if m == "eq0":
             return ("bin", "eq", c, ("lit", "0"))
         if m == "eq1":
-            return ("bin", r.choice(["eq", "ne"]), c, ("lit", r.choice(["1", "0", "2", "1U", "-1"])))
+            return ("bin", r.choice(["eq", "ne"]), c, ("lit", r.choice(["1", "0"] if self.safe else ["1", "0", "2", "1U", "-1"])))
         if m == "ne1":
-            return ("bin", r.choice(["eq", "ne"]), ("lit", r.choice(["1", "0", "2"])), c)
+            return ("bin", r.choice(["eq", "ne"]), ("lit", r.choice(["1", "0"] if self.safe else ["1", "0", "2"])), c)
         if m == "boolk":
-            return ("un", "lnot", ("bin", r.choice(["eq", "ne"]), c, ("lit", r.choice(["1", "0", "2"]))))
+            return ("un", "lnot", ("bin", r.choice(["eq", "ne"]), c, ("lit", r.choice(["1", "0"] if self.safe else ["1", "0", "2"]))))
         if m == "and_atom":
             o = self.atom()
             return ("bin", "land", c, o) if r.random() < 0.5 else ("bin", "land", o, c)
@@ -463,6 +501,7 @@ class Oracle:
         self.calls = []     # (func index, vector)
 
     def add(self, params, text, vectors):
+        """a function whose text contains TR(…) returns 2 when the marked node is not evaluated, else its truth value"""
         self.funcs.append((params, text))
         fi = len(self.funcs) - 1
         first = len(self.calls)
@@ -470,47 +509,64 @@ class Oracle:
             self.calls.append((fi, v))
         return first, len(vectors)
 
-    def run(self, tag="oracle"):
-        """-> list of ('v', value) | ('ub', None) per call"""
+    def run(self, tag="oracle", per_file=2000):
+        """-> list of ('v', value) | ('ub', None) per call.
+        Undefined behaviour is detected by gcc's -fsanitize=undefined in trap mode: the failing check executes an illegal
+        instruction, the SIGILL handler jumps back and the evaluation is recorded as `ub` (no report de-duplication)."""
         if not self.calls:
             return []
-        src = ["#include <stdio.h>", "#include <unistd.h>"]
-        for i, (params, text) in enumerate(self.funcs):
-            src.append("static long long __attribute__((noinline)) f%d(%s) { return (long long)(%s); }" %
-                       (i, ", ".join("%s %s" % (TYPES[t][0], n) for n, t in params), text))
-        src.append("int main(void) { dup2(1, 2); setvbuf(stdout, NULL, _IONBF, 0); setvbuf(stderr, NULL, _IONBF, 0);")
-        body = []
+        # calls are grouped per function (add() appends the vectors of one function contiguously): one table + loop each
+        groups = []
         for ci, (fi, vec) in enumerate(self.calls):
-            params = self.funcs[fi][0]
-            args = ", ".join("(%s)%s" % (TYPES[t][0], c_lit(v, t)) for (n, t), v in zip(params, vec))
-            body.append("  printf(\"R %d %%lld\\n\", f%d(%s));" % (ci, fi, args))
-        # split main into chunks to keep gcc fast
-        chunk = 400
+            if groups and groups[-1][0] == fi and groups[-1][1] + len(groups[-1][2]) == ci:
+                groups[-1][2].append(vec)
+            else:
+                groups.append((fi, ci, [vec]))
+        res = [None] * len(self.calls)
+        for part, k0 in enumerate(range(0, len(groups), per_file)):
+            self._run_part("%s_%d" % (tag, part), groups[k0:k0 + per_file], res)
+        if any(r is None for r in res):
+            raise core.CheckBroken("oracle program output incomplete")
+        return res
+
+    def _run_part(self, tag, groups, res):
+        src = ["#include <stdio.h>", "#include <signal.h>", "#include <setjmp.h>",
+               "static sigjmp_buf jb;", "static void onill(int s) { (void)s; siglongjmp(jb, 1); }",
+               "static int tr_seen, tr_val;",
+               "#define TR(e) ({ __typeof__(e) v_ = (e); tr_seen = 1; tr_val = (v_ != 0); v_; })",
+               "#define CALL(ci, e) do { if (sigsetjmp(jb, 1) == 0) { long long r_ = (e); printf(\"R %d %lld\\n\", ci, r_); } "
+               "else printf(\"U %d\\n\", ci); } while (0)"]
         mains = []
-        for k in range(0, len(body), chunk):
-            mains.append("static void __attribute__((noinline)) run%d(void) {\n%s\n}" % (k // chunk, "\n".join(body[k:k + chunk])))
-        src[len(self.funcs) + 2:len(self.funcs) + 2] = mains
-        src.append("".join("  run%d();\n" % j for j in range(len(mains))) + "  return 0; }")
+        for gi, (fi, first, vecs) in enumerate(groups):
+            params, text = self.funcs[fi]
+            if "TR(" in text:
+                src.append("static long long __attribute__((noinline)) f%d(%s) { tr_seen = 0; (void)(%s); return tr_seen ? tr_val : 2; }" %
+                           (fi, ", ".join("%s %s" % (TYPES[t][0], n) for n, t in params), text))
+            else:
+                src.append("static long long __attribute__((noinline)) f%d(%s) { return (long long)(%s); }" %
+                           (fi, ", ".join("%s %s" % (TYPES[t][0], n) for n, t in params), text))
+            np_ = max(1, len(params))
+            rows = ",".join("{" + ",".join("%dULL" % (v % (1 << 64)) for v in vec) + ("" if vec else "0") + "}" for vec in vecs)
+            args = ", ".join("(%s)t[k][%d]" % (TYPES[t][0], j) for j, (n, t) in enumerate(params))
+            mains.append("static void __attribute__((noinline)) run%d(void) { static const unsigned long long t[%d][%d] = {%s}; "
+                         "for (int k = 0; k < %d; ++k) CALL(%d + k, f%d(%s)); }" % (gi, len(vecs), np_, rows, len(vecs), first, fi, args))
+        src += mains
+        src.append("int main(void) { signal(SIGILL, onill); signal(SIGFPE, onill); signal(SIGTRAP, onill);\n" +
+                   "".join("  run%d();\n" % j for j in range(len(mains))) + "  return 0; }")
         cpath = os.path.join(self.ctx.tmp, tag + ".c")
         exe = os.path.join(self.ctx.tmp, tag)
         open(cpath, "w").write("\n".join(src) + "\n")
         rc, out, err = core.sh(["gcc", "-std=gnu17", "-O0", "-w", "-fsanitize=undefined", "-fno-sanitize=alignment",
-                                cpath, "-o", exe], timeout=600)
+                                "-fsanitize-undefined-trap-on-error", cpath, "-o", exe], timeout=1800)
         if rc != 0:
             raise core.CheckBroken("oracle program does not compile:\n" + (out + err)[-3000:])
-        rc, out, err = core.sh([exe], timeout=600, env={"UBSAN_OPTIONS": "print_stacktrace=0:halt_on_error=0"})
-        res = [None] * len(self.calls)
-        ub = False
+        rc, out, err = core.sh([exe], timeout=900)
         for line in out.split("\n"):
             if line.startswith("R "):
                 _, ci, v = line.split()
-                res[int(ci)] = ("ub", None) if ub else ("v", int(v))
-                ub = False
-            elif "runtime error" in line:
-                ub = True
-        if any(r is None for r in res):
-            raise core.CheckBroken("oracle program output incomplete (rc=%s): %s" % (rc, out[-500:]))
-        return res
+                res[int(ci)] = ("v", int(v))
+            elif line.startswith("U "):
+                res[int(line.split()[1])] = ("ub", None)
 
 
 # ------------------------------------------------------------------------------------------------------------------
@@ -529,20 +585,74 @@ def parent_of(tree, node):
     return None
 
 
-def text_of_hnode(src, n):
-    """C text of a harness subtree, rebuilt from the tokens' spellings (fully parenthesised)"""
+def text_of_hnode(src, n, mark=None):
+    """C text of a harness subtree, rebuilt from the tokens' spellings (fully parenthesised); the node `mark` is wrapped
+    in TR(…), which records whether it is evaluated and its truth value"""
     if n.kind == "L":
-        return core.unhx(n.what).decode("latin-1")
-    if n.kind == "V":
-        return ident_at(src, n.col)
-    if n.kind == "U":
-        return UNOPS[n.what] + "(" + text_of_hnode(src, n.kids[0]) + ")"
-    return "(" + text_of_hnode(src, n.kids[0]) + ") " + BINOPS[n.what] + " (" + text_of_hnode(src, n.kids[1]) + ")"
+        t = core.unhx(n.what).decode("latin-1")
+    elif n.kind == "V":
+        t = ident_at(src, n.col)
+    elif n.kind == "U":
+        t = UNOPS[n.what] + "(" + text_of_hnode(src, n.kids[0], mark) + ")"
+    else:
+        t = "(" + text_of_hnode(src, n.kids[0], mark) + ") " + BINOPS[n.what] + " (" + text_of_hnode(src, n.kids[1], mark) + ")"
+    return "TR(" + t + ")" if n is mark else t
 
 
-def classify_pair(rel, trees, vs, src):
-    """known-finding key of a refuted in-process relation (None = not a listed class)"""
+REL_NAMES = ["same", "oppF", "oppT"]
+
+
+def classify_rel(rel, flags):
+    """known-finding key of a refuted in-process relation; `flags` = the model's side-condition letters of the two trees
+    (annOK eqNeSafe cmpSafe vtOK).  A refutation under all side conditions contradicts a theorem: never a known class."""
+    f1, f2 = flags
+    if f1[1] == "F" or f2[1] == "F":
+        return "F03a:isSameExpression-eqne-known-not-01"
+    if rel == "oppF" and (f1[2] == "F" or f2[2] == "F"):
+        return "F03b:isOppositeCond-known-values-inexact-comparison"
     return None
+
+
+def classify_finding(fid, msg, cmpnode, src, flag):
+    """known-finding key of a refuted in-process finding.  Inside the domain of a theorem (outOfTypeRange_sound:
+    annOK, cmpSafe, vtOK; bitand_compare_sound: `&`, Known value on the right, annOK, cmpSafe) a refutation is never a
+    known class."""
+    if fid == "compareValueOutOfTypeRangeError":
+        return "F03e:compareValueOutOfTypeRange-inexact-comparison" if flag[2] == "F" else None
+    if fid == "comparisonError":
+        if cmpnode.kids[0].k != "-":
+            return "F03c:comparison-known-left-comparator-not-swapped"
+        if "(X |" in msg or flag[2] == "F":
+            return "F03d:comparison-bitop-inexact"
+    return None
+
+
+def claimed_bool(msg):
+    if msg.endswith("always true."):
+        return True
+    if msg.endswith("always false."):
+        return False
+    return None
+
+
+def consts_of(trees):
+    out = set()
+    for t in trees:
+        for n in t.walk():
+            if n.kind == "L":
+                tv = lit_type_value(core.unhx(n.what).decode("latin-1"))
+                if tv:
+                    out.add(tv[1])
+    return out
+
+
+def env_str(vs_by_name, params, vec):
+    """driver environment: varid=value for the variables that occur"""
+    items = []
+    for (name, t), v in zip(params, vec):
+        if name in vs_by_name:
+            items.append("%s=%d" % (vs_by_name[name], v))
+    return ",".join(items) or "-"
 
 
 def run_inprocess(ctx, res, n_pairs, n_inputs, corpus):
@@ -552,12 +662,13 @@ def run_inprocess(ctx, res, n_pairs, n_inputs, corpus):
     drv = ctx.driver("drv_c03")
     cases = []
     for item in corpus:
-        cases.append(dict(lang=item["lang"], params=[tuple(p) for p in item["params"]], src=item["src"], corpus=item.get("name")))
+        cases.append(dict(lang=item["lang"], params=[tuple(p) for p in item["params"]], src=item["src"], corpus=item.get("name"),
+                          inputs=item.get("inputs")))
     for i in range(n_pairs):
         params = g.params()
         c1, c2 = g.pair()
         lang = "cpp" if rng.random() < 0.4 else "c"
-        cases.append(dict(lang=lang, params=params, src=source_of(params, c1, c2), share=None))
+        cases.append(dict(lang=lang, params=params, src=source_of(params, c1, c2)))
     ops = ["conds %s %s" % (c["lang"], core.hx(c["src"])) for c in cases]
     rc, impl, err = core.run_lines(exe, [], ops)
     if len(impl) != len(ops):
@@ -586,25 +697,712 @@ def run_inprocess(ctx, res, n_pairs, n_inputs, corpus):
         c = cases[i]
         h = c["h"]
         mparts = model[j].split(" # ")
-        c["annok"] = mparts[2] if len(mparts) == 3 else "?"
+        c["flags"] = mparts[2].split() if len(mparts) == 3 else []
         impl_c.append("%s %s # %s" % (h["r12"], h["r21"], h["raw_findings"]))
         model_c.append(" # ".join(mparts[:2]))
         ops_c.append(dops[j])
+        covered = c["flags"] and all(f == "TTTT" for f in c["flags"])
+        res.count("inprocess:theorem-hypotheses-hold" if covered else "inprocess:outside-hypotheses")
+        for k, name in enumerate(REL_NAMES + ["oppExpr"]):
+            if h["r12"][k] == "T" or h["r21"][k] == "T":
+                res.count("inprocess:%s=true" % name)
+        for f in h["findings"]:
+            res.count("inprocess:" + f[0])
+
     def nontriv(op, out):
         return "T" in out.split(" # ")[0] or not out.endswith("# -")
     core.correspond(ctx, res, "isSame/isOpposite/comparison/typeRange in-process", ops_c, impl_c, model_c, nontrivial=nontriv)
+
+    # ---- P_impl: every claim of the real code against native execution; C2: Lean semantics against native execution
+    orc = Oracle(ctx)
+    evalops, evalmeta = [], []
+    for i in didx:
+        c = cases[i]
+        h = c["h"]
+        trees = h["trees"]
+        claims = []
+        if len(trees) == 2:
+            for k, name in enumerate(REL_NAMES):
+                if h["r12"][k] == "T" or h["r21"][k] == "T":
+                    claims.append(("rel", name))
+        for (fid, col, msg) in h["findings"]:
+            b = claimed_bool(msg)
+            node = None
+            for t in trees:
+                n = find_node(t, col)
+                if n is not None:
+                    node = (t, n)
+            if b is None or node is None:
+                res.oblig("finding-location", False, "machinery", "cannot place %s@%d in %s" % (fid, col, c["src"]))
+                continue
+            par = parent_of(node[0], node[1])
+            if par is None or par.kind != "B" or par.what not in CMPS:
+                res.oblig("finding-location", False, "machinery", "parent of %s@%d is not a comparison in %s" % (fid, col, c["src"]))
+                continue
+            claims.append(("finding", fid, msg, b, par, trees.index(node[0])))
+        c["claims"] = claims
+        sample_sem = (i % 3 == 0)
+        if not claims and not sample_sem:
+            continue
+        vecs = input_vectors(rng, c["params"], consts_of(trees), n_inputs)
+        if c.get("inputs"):
+            vecs = [list(v) for v in c["inputs"]] + vecs
+        c["vecs"] = vecs
+        c["calls"] = {}
+        texts = [text_of_hnode(c["src"], t) for t in trees]
+        for ti, tx in enumerate(texts):
+            c["calls"]["cond%d" % ti] = orc.add(c["params"], tx, vecs)
+        for cl in claims:
+            if cl[0] == "finding":
+                key = "cmp@%d" % cl[4].col
+                if key not in c["calls"]:
+                    # the comparison inside its condition: only the evaluations that really happen count
+                    c["calls"][key] = orc.add(c["params"], text_of_hnode(c["src"], trees[cl[5]], mark=cl[4]), vecs)
+        # Lean evaluator on the same inputs (roots only)
+        byname = {}
+        for t in trees:
+            for n in t.walk():
+                if n.kind == "V":
+                    byname[ident_at(c["src"], n.col)] = n.what
+        envs = ";".join(env_str(byname, c["params"], v) for v in vecs)
+        for ti, t in enumerate(trees):
+            evalops.append("eval %s %s %s | %s" % (c["vars_s"], c["lits_s"], envs, t.sexp()))
+            evalmeta.append((i, ti))
+    native = orc.run("inproc")
+    rc, evout, err = core.run_lines(drv, [], evalops)
+    if len(evout) != len(evalops):
+        raise core.CheckBroken("drv_c03 (eval) died: rc=%s %s" % (rc, err[-800:]))
+    # C2
+    sem_mism, sem_n = [], 0
+    for (i, ti), line in zip(evalmeta, evout):
+        c = cases[i]
+        first, n = c["calls"]["cond%d" % ti]
+        vals = line.split(",")
+        if len(vals) != n:
+            sem_mism.append((c["src"], "driver: " + line[:200]))
+            continue
+        for j in range(n):
+            kind, v = native[first + j]
+            mine = vals[j]
+            want = "ub" if kind == "ub" else "v:%d" % v
+            sem_n += 1
+            if mine == "ub" and want != "ub":
+                # gcc evaluates some undefined expressions without executing the overflowing operation (`-c <= k` is
+                # folded to `c >= -k`); such an input counts as not UB-free for P_impl
+                res.count("semantics:lean-ub-gcc-folded")
+                native[first + j] = ("ub", None)
+            elif mine != want and not (mine.startswith("v:") and want.startswith("v:") and
+                                       (int(mine[2:]) - int(want[2:])) % (1 << 64) == 0):
+                sem_mism.append((c["src"], "cond%d input %s: lean %s gcc %s" % (ti, c["vecs"][j], mine, want)))
+    res.evaluations += sem_n
+    res.count("semantics:evaluations-vs-gcc", sem_n)
+    res.oblig("correspondence:Lean semantics (eval) == gcc -fsanitize=undefined", not sem_mism, "correspondence",
+              "" if not sem_mism else "%d differ; first: %s" % (len(sem_mism), sem_mism[0]))
+    # P_impl
+    for i in didx:
+        c = cases[i]
+        if not c.get("claims"):
+            continue
+        def val(key, j):
+            first, n = c["calls"][key]
+            return native[first + j]
+        nvec = len(c["vecs"])
+        for cl in c["claims"]:
+            bad = None
+            checked = 0
+            for j in range(nvec):
+                if cl[0] == "rel":
+                    a, b = val("cond0", j), val("cond1", j)
+                    if a[0] == "ub" or b[0] == "ub":
+                        continue
+                    checked += 1
+                    ta, tb = a[1] != 0, b[1] != 0
+                    ok = (ta == tb) if cl[1] == "same" else (not (ta and tb)) if cl[1] == "oppF" else (ta != tb)
+                    if not ok:
+                        bad = (j, a[1], b[1])
+                        break
+                else:
+                    a = val("cmp@%d" % cl[4].col, j)
+                    if a[0] == "ub" or a[1] == 2:
+                        continue
+                    checked += 1
+                    if (a[1] != 0) != cl[3]:
+                        bad = (j, a[1], None)
+                        break
+            res.count("P_impl:claims-checked")
+            res.count("P_impl:executions", checked)
+            if bad is None:
+                continue
+            j = bad[0]
+            inp = dict(zip([p[0] for p in c["params"]], c["vecs"][j]))
+            if cl[0] == "rel":
+                key = classify_rel(cl[1], c["flags"])
+                what = ("in-process %s claimed by the real code for the conditions of `%s` but for %s the conditions evaluate to %s and %s "
+                        "(UB-free, gcc)" % (cl[1], c["src"], inp, bad[1], bad[2]))
+                rd = dict(kind="inprocess-rel", rel=cl[1], lang=c["lang"], params=c["params"], src=c["src"], input=c["vecs"][j])
+            else:
+                key = classify_finding(cl[1], cl[2], cl[4], c["src"], c["flags"][cl[5]])
+                what = ("%s: `%s` reported for `%s` in `%s` but for %s it evaluates to %s (UB-free, gcc)" %
+                        (cl[1], cl[2], text_of_hnode(c["src"], cl[4]), c["src"], inp, bad[1]))
+                rd = dict(kind="inprocess-finding", id=cl[1], msg=cl[2], col=cl[4].col, lang=c["lang"], params=c["params"],
+                          src=c["src"], input=c["vecs"][j])
+            if cl[0] == "rel" and all(f == "TTTT" for f in c["flags"]):
+                key = None     # contradicts a theorem: model, semantics or tie is wrong - never absorbed by a known finding
+            res.violation(what, rd, concrete=True, key=key)
     return cases, didx
 
 
-def run(ctx, res):
-    core.prove(ctx, res, MODULES, THEOREMS)
-    quick = ctx.tier != "thorough"
-    corpus = []
+# ------------------------------------------------------------------------------------------------------------------
+# CLI tie: generated functions analysed by the built cppcheck binary; every verdict checked by native execution
+
+class PNode:
+    """condition tree node of a generated program with a unique id and, after printing, its (line, column)"""
+    def __init__(self, tree, ids):
+        self.kind = tree[0]
+        self.id = len(ids)
+        ids.append(self)
+        self.line = self.col = None
+        if self.kind in ("lit", "var"):
+            self.text = tree[1]
+            self.kids = []
+        elif self.kind == "un":
+            self.op = tree[1]
+            self.kids = [PNode(tree[2], ids)]
+        else:
+            self.op = tree[1]
+            self.kids = [PNode(tree[2], ids), PNode(tree[3], ids)]
+        self.parent = None
+        for k in self.kids:
+            k.parent = self
+
+    def plain(self, line, col0):
+        """text without instrumentation; records the position (1-based column) of every node's token"""
+        self.line = line
+        if self.kind in ("lit", "var"):
+            # a negative number is one token (`-` merged into the number) that keeps the column of the digits
+            self.col = col0 + 1 if self.text.startswith("-") else col0
+            return self.text
+        if self.kind == "un":
+            self.col = col0
+            return UNOPS[self.op] + self.kids[0].wrapped(line, col0 + len(UNOPS[self.op]))
+        l = self.kids[0].wrapped(line, col0)
+        self.col = col0 + len(l) + 1
+        sym = BINOPS[self.op]
+        r = self.kids[1].wrapped(line, self.col + len(sym) + 1)
+        return l + " " + sym + " " + r
+
+    def wrapped(self, line, col0):
+        if self.kind == "var" or (self.kind == "lit" and not self.text.startswith("-")):
+            return self.plain(line, col0)
+        return "(" + self.plain(line, col0 + 1) + ")"
+
+    def traced(self):
+        if self.kind == "lit":
+            return self.text if not self.text.startswith("-") else "(" + self.text + ")"
+        if self.kind == "var":
+            inner = self.text
+        elif self.kind == "un":
+            inner = UNOPS[self.op] + self.kids[0].traced()
+        else:
+            inner = self.kids[0].traced() + " " + BINOPS[self.op] + " " + self.kids[1].traced()
+        return "TR(%d, %s)" % (self.id, inner)
+
+
+def promote_t(t):
+    return "s3" if TYPES[t][1] < 32 else t
+
+
+RANK = {"1": 0, "2": 1, "3": 2, "4": 3, "5": 4}
+
+
+def uac_t(a, b):
+    a, b = promote_t(a), promote_t(b)
+    if a == b:
+        return a
+    sa, sb = a[0] == "s", b[0] == "s"
+    if sa == sb:
+        return b if RANK[a[1]] < RANK[b[1]] else a
+    u, sg = (b, a) if sa else (a, b)
+    if RANK[sg[1]] <= RANK[u[1]]:
+        return u
+    if TYPES[u][1] < TYPES[sg][1]:
+        return sg
+    return "u" + sg[1]
+
+
+def ptype(n, ptypes):
+    """static C type of a PNode"""
+    if n.kind == "lit":
+        tv = lit_type_value(n.text)
+        return tv[0] if tv else "s3"
+    if n.kind == "var":
+        return ptypes[n.text]
+    if n.kind == "un":
+        return "s3" if n.op == "lnot" else promote_t(ptype(n.kids[0], ptypes))
+    if n.op in CMPS or n.op in ("land", "lor"):
+        return "s3"
+    if n.op in ("shl", "shr"):
+        return promote_t(ptype(n.kids[0], ptypes))
+    return uac_t(ptype(n.kids[0], ptypes), ptype(n.kids[1], ptypes))
+
+
+def hazards(n, ptypes, out=None):
+    """integer-conversion hazards inside a condition: the constructs whose C semantics (modular unsigned arithmetic, signed
+    to unsigned conversion, bit complement) differ from arithmetic on unbounded integers"""
+    if out is None:
+        out = set()
+    if n.kind == "un":
+        if n.op == "compl":
+            out.add("complement")
+        if n.op == "neg" and promote_t(ptype(n.kids[0], ptypes))[0] == "u":
+            out.add("negated-unsigned")
+    elif n.kind == "bin" and n.op not in ("land", "lor", "shl", "shr"):
+        ta, tb = promote_t(ptype(n.kids[0], ptypes)), promote_t(ptype(n.kids[1], ptypes))
+        t = uac_t(ta, tb)
+        if t[0] == "u" and (ta[0] == "s" or tb[0] == "s"):
+            out.add("signed-converted-to-unsigned")
+        if t[0] == "u" and n.op in ("add", "sub", "mul"):
+            out.add("unsigned-wrap")
+        if n.op == "sub" and n.kids[0].kind == "lit" and n.kids[1].kind != "lit":
+            out.add("const-minus-expr")
+        if n.op == "mul" and (n.kids[0].kind == "lit") != (n.kids[1].kind == "lit"):
+            out.add("mul-by-const")
+        if n.op in ("eq", "ne"):
+            for k, o in ((n.kids[0], n.kids[1]), (n.kids[1], n.kids[0])):
+                tv = lit_type_value(k.text) if k.kind == "lit" else None
+                if tv and tv[1] not in (0, 1) and (o.kind == "un" and o.op == "lnot" or o.kind == "bin" and (o.op in CMPS or o.op in ("land", "lor"))):
+                    out.add("bool-compared-with-int")
+    for k in n.kids:
+        hazards(k, ptypes, out)
+    return out
+
+
+def func_hazards(stmts, ptypes):
+    out = set()
+    def walk(sts):
+        for st in sts:
+            if st[0] == "seq":
+                walk(st[1])
+            elif st[0] == "if":
+                hazards(st[1], ptypes, out)
+                walk(st[2])
+                if st[3]:
+                    walk(st[3])
+            elif st[0] == "raw" and re.match(r"^[a-d] (=|-=) |^[a-d]\+\+", st[1]):
+                m = re.match(r"^([a-d])", st[1])
+                if ptypes[m.group(1)] != "s3" and ptypes[m.group(1)] != "s4":
+                    out.add("assignment-to-narrow-or-unsigned")
+    walk(stmts)
+    return out
+
+
+class ProgGen:
+    """one function: int fN(T a, T b, T c, T d) { int r = 0; <stmts> return r; }"""
+
+    def __init__(self, g, ids):
+        self.g = g
+        self.rng = g.rng
+        self.ids = ids
+
+    def cond(self, tree):
+        return PNode(tree, self.ids)
+
+    def assign(self):
+        r = self.rng
+        v = r.choice("abcd")
+        k = r.random()
+        if k < 0.4:
+            return ("raw", "%s = %s;" % (v, pr(self.g.term(1))))
+        if k < 0.7:
+            return ("raw", "%s++;" % v)
+        return ("raw", "%s -= %d;" % (v, r.randrange(1, 4)))
+
+    def mark(self):
+        return ("raw", "r += %d;" % self.rng.randrange(1, 100))
+
+    def stmts(self, depth):
+        r = self.rng
+        out = []
+        for _ in range(r.randrange(1, 3)):
+            out.append(self.stmt(depth))
+        return out
+
+    def stmt(self, depth):
+        r = self.rng
+        g = self.g
+        k = r.random()
+        c1 = g.cond()
+        c2 = g.mutate(c1)
+        if r.random() < 0.3:
+            c2 = g.mutate(c2)
+        mid = [self.assign()] if r.random() < 0.25 else []
+        if k < 0.40:   # nested
+            inner = ("if", self.cond(c2), [self.mark()] + (self.stmts(depth + 1) if depth < 1 and r.random() < 0.3 else []), None)
+            return ("if", self.cond(c1), mid + [inner] + ([self.mark()] if r.random() < 0.3 else []), None)
+        if k < 0.60:   # early exit then the same / related condition
+            return ("seq", [("if", self.cond(c1), [("raw", "return %d;" % r.randrange(1, 50))], None)] + mid +
+                    [("if", self.cond(c2), [self.mark()], None)])
+        if k < 0.80:   # else if
+            return ("if", self.cond(c1), [self.mark()], [("if", self.cond(c2), [self.mark()], None)])
+        if k < 0.92:
+            return ("if", self.cond(c1), [self.mark()], None)
+        return self.assign()
+
+    def body(self):
+        out = []
+        for _ in range(self.rng.randrange(1, 4)):
+            out.append(self.stmt(0))
+        return out
+
+
+def emit_stmts(stmts, ind, lines, tlines):
+    """appends the plain lines (cppcheck) and the traced lines (gcc); conditions are printed on lines of their own"""
+    pad = "  " * ind
+    for st in stmts:
+        if st[0] == "raw":
+            lines.append(pad + st[1]); tlines.append(pad + st[1])
+        elif st[0] == "seq":
+            emit_stmts(st[1], ind, lines, tlines)
+        else:
+            _, c, then, els = st
+            head = pad + "if ("
+            lines.append(head + c.plain(len(lines) + 1, len(head) + 1) + ") {")
+            tlines.append(head + c.traced() + ") {")
+            emit_stmts(then, ind + 1, lines, tlines)
+            if els is None:
+                lines.append(pad + "}"); tlines.append(pad + "}")
+            else:
+                # `} else if (…) {` : the else-if condition on the line of the `else`
+                e = els[0]
+                head = pad + "} else if ("
+                lines.append(head + e[1].plain(len(lines) + 1, len(head) + 1) + ") {")
+                tlines.append(head + e[1].traced() + ") {")
+                emit_stmts(e[2], ind + 1, lines, tlines)
+                lines.append(pad + "}"); tlines.append(pad + "}")
+
+
+CLI_IDS = {"knownConditionTrueFalse", "oppositeInnerCondition", "identicalInnerCondition", "overlappingInnerCondition",
+           "identicalConditionAfterEarlyExit", "comparisonError", "compareValueOutOfTypeRangeError", "multiCondition",
+           "incorrectLogicOperator", "unsignedLessThanZero", "unsignedPositive", "badBitmaskCheck"}
+
+
+def cli_claim(fid, msg):
+    """-> (target, value): target 'node' = the token at the location, 'parent' = the comparison above it"""
+    if fid == "knownConditionTrueFalse":
+        m = re.search(r"is always (true|false)$", msg)
+        return ("node", m.group(1) == "true") if m else None
+    if fid == "oppositeInnerCondition":
+        return ("node", False)
+    if fid in ("identicalInnerCondition", "overlappingInnerCondition"):
+        return ("node", True)
+    if fid == "identicalConditionAfterEarlyExit":
+        return ("node", False) if "second condition is always false" in msg else None
+    if fid == "multiCondition":
+        if "always false" in msg:
+            return ("node", False)
+        if "always true" in msg:
+            return ("node", True)
+        return None
+    if fid == "incorrectLogicOperator":
+        if msg.startswith("Logical disjunction always evaluates to true"):
+            return ("node", True)
+        if msg.startswith("Logical conjunction always evaluates to false"):
+            return ("node", False)
+        return None
+    if fid in ("comparisonError", "compareValueOutOfTypeRangeError"):
+        b = claimed_bool(msg)
+        return ("parent", b) if b is not None else None
+    if fid == "unsignedLessThanZero":
+        return ("cmp", False)
+    if fid == "unsignedPositive":
+        return ("cmp", True)
+    if fid == "badBitmaskCheck":
+        return ("node", True) if "always true" in msg else None
+    return None
+
+
+def run_cli(ctx, res, n_funcs, n_inputs, corpus, lang="c"):
+    rng = ctx.rng
+    g = Gen(rng)
+    gsafe = Gen(rng, safe=True)
+    ids = []
+    funcs = []
+    for item in corpus:
+        funcs.append(dict(params=[tuple(p) for p in item["params"]], stmts=None, raw=item, name=item.get("name")))
+    for i in range(n_funcs):
+        gg = gsafe if i % 2 == 0 else g
+        pg = ProgGen(gg, ids)
+        funcs.append(dict(params=gg.params(), stmts=pg.body(), safe=gg.safe))
+    lines, tlines = [], []
+    tlines += ["#include <stdio.h>", "#include <signal.h>", "#include <setjmp.h>",
+               "static sigjmp_buf jb; static void onill(int s) { (void)s; siglongjmp(jb, 1); }",
+               "static int nrec; static int recs[4096];",
+               "static void rec(int id, int t) { if (nrec < 4096) recs[nrec++] = id * 2 + (t ? 1 : 0); }",
+               "#define TR(id, e) ({ __typeof__(e) v_ = (e); rec(id, v_ != 0); v_; })"]
+    for fi, f in enumerate(funcs):
+        sig = "int f%d(%s) {" % (fi, ", ".join("%s %s" % (TYPES[t][0], n) for n, t in f["params"]))
+        f["first_line"] = len(lines) + 1
+        lines.append(sig); tlines.append("static " + sig)
+        lines.append("  int r = 0;"); tlines.append("  int r = 0;")
+        if f["stmts"] is None:
+            # corpus function: conditions given as trees in a small statement language (see corpus/C03/cases.json)
+            pg = ProgGen(g, ids)
+            f["stmts"] = build_corpus_stmts(f["raw"]["stmts"], pg)
+        emit_stmts(f["stmts"], 1, lines, tlines)
+        lines.append("  return r;"); tlines.append("  return r;")
+        lines.append("}"); tlines.append("}")
+        f["last_line"] = len(lines)
+    src = "\n".join(lines) + "\n"
+    ext = ".c" if lang == "c" else ".cpp"
+    spath = os.path.join(ctx.tmp, "cli_%s%s" % (lang, ext))
+    open(spath, "w").write(src)
+    rc, out, err = core.sh([ctx.cppcheck, "--enable=style,warning", "--platform=unix64", "--quiet", "--inline-suppr",
+                            "--template={line}:{column}:{id}:{message}", spath], timeout=1200)
+    findings = []
+    for ln in (out + err).split("\n"):
+        m = re.match(r"^(\d+):(\d+):(\w+):(.*)$", ln)
+        if m:
+            findings.append((int(m.group(1)), int(m.group(2)), m.group(3), m.group(4)))
+    bypos = {}
+    for n in ids:
+        if n.line is not None:
+            bypos[(n.line, n.col)] = n
+    claims = []
+    for (ln, col, fid, msg) in findings:
+        res.count("cli:finding:" + fid)
+        if fid not in CLI_IDS:
+            continue
+        cl = cli_claim(fid, msg)
+        if cl is None:
+            res.count("cli:no-truth-claim:" + fid)
+            continue
+        n = bypos.get((ln, col))
+        if n is None:
+            res.oblig("cli-finding-location", False, "machinery", "no condition token at %d:%d for %s: %s\n%s" % (ln, col, fid, msg, lines[ln - 1]))
+            continue
+        target = n
+        if cl[0] == "parent":
+            target = n.parent
+        elif cl[0] == "cmp":
+            target = n if (n.kind == "bin" and n.op in CMPS) else n.parent
+            # "less than zero" / "can't be negative" is a verdict only for `x < 0`, `0 > x` / `x >= 0`, `0 <= x`
+            if target is not None and target.kind == "bin":
+                zl = target.kids[0].kind == "lit" and lit_type_value(target.kids[0].text) and lit_type_value(target.kids[0].text)[1] == 0
+                zr = target.kids[1].kind == "lit" and lit_type_value(target.kids[1].text) and lit_type_value(target.kids[1].text)[1] == 0
+                strict = (fid == "unsignedLessThanZero" and ((target.op == "lt" and zr) or (target.op == "gt" and zl))) or \
+                         (fid == "unsignedPositive" and ((target.op == "ge" and zr) or (target.op == "le" and zl)))
+                if not strict:
+                    res.count("cli:no-truth-claim:" + fid)
+                    continue
+        if target is None or (cl[0] != "node" and not (target.kind == "bin" and target.op in CMPS)):
+            res.oblig("cli-finding-location", False, "machinery", "no comparison for %s at %d:%d: %s" % (fid, ln, col, lines[ln - 1]))
+            continue
+        claims.append(dict(line=ln, col=col, id=fid, msg=msg, node=target, value=cl[1]))
+    # native execution of every function on its inputs
+    main = ["int main(void) { signal(SIGILL, onill); signal(SIGFPE, onill); signal(SIGTRAP, onill);"]
+    runs = []
+    for fi, f in enumerate(funcs):
+        vecs = input_vectors(rng, f["params"], set(consts_in_stmts(f["stmts"])), n_inputs)
+        if f.get("raw") and f["raw"].get("inputs"):
+            vecs = [list(v) for v in f["raw"]["inputs"]] + vecs
+        f["vecs"] = vecs
+        rows = ",".join("{" + ",".join("%dULL" % (v % (1 << 64)) for v in vec) + "}" for vec in vecs)
+        args = ", ".join("(%s)t%d[k][%d]" % (TYPES[t][0], fi, j) for j, (n, t) in enumerate(f["params"]))
+        tlines.append("static const unsigned long long t%d[%d][%d] = {%s};" % (fi, len(vecs), len(f["params"]), rows))
+        main.append("  for (int k = 0; k < %d; ++k) { nrec = 0; if (sigsetjmp(jb, 1) == 0) { int r_ = f%d(%s); printf(\"D %d %%d %%d\", k, r_); "
+                    "for (int i = 0; i < nrec; ++i) printf(\" %%d\", recs[i]); printf(\"\\n\"); } else printf(\"X %d %%d\\n\", k); }" %
+                    (len(vecs), fi, args, fi, fi))
+    main.append("  return 0; }")
+    tpath = os.path.join(ctx.tmp, "cli_traced_%s.c" % lang)
+    texe = os.path.join(ctx.tmp, "cli_traced_%s" % lang)
+    open(tpath, "w").write("\n".join(tlines + main) + "\n")
+    rc, out, err = core.sh(["gcc", "-std=gnu17", "-O0", "-w", "-fsanitize=undefined", "-fno-sanitize=alignment",
+                            "-fsanitize-undefined-trap-on-error", tpath, "-o", texe], timeout=900)
+    if rc != 0:
+        raise core.CheckBroken("traced CLI program does not compile:\n" + (out + err)[-3000:])
+    rc, out, err = core.sh([texe], timeout=600)
+    seen = {}       # node id -> {truth: (function, vector index)}
+    nruns = nub = 0
+    for ln in out.split("\n"):
+        p = ln.split()
+        if not p:
+            continue
+        if p[0] == "X":
+            nub += 1
+            continue
+        if p[0] != "D":
+            continue
+        nruns += 1
+        fi, k = int(p[1]), int(p[2])
+        for w in p[4:]:
+            w = int(w)
+            seen.setdefault(w // 2, {}).setdefault(w % 2, (fi, k))
+    res.count("cli:functions", len(funcs))
+    res.count("cli:runs-ub-free", nruns)
+    res.count("cli:runs-with-ub", nub)
+    res.evaluations += nruns
+    for cl in claims:
+        n = cl["node"]
+        obs = seen.get(n.id, {})
+        res.count("cli:claims-checked")
+        canon = "cli|%s|%s|%s" % (cl["id"], cl["msg"], lines[cl["line"] - 1].strip())
+        res.case(canon, True, dict(tie="cli", finding="%s: %s" % (cl["id"], cl["msg"]), line=lines[cl["line"] - 1].strip(),
+                                   evaluated=sorted(obs.keys())) if len(res.samples) < 12 else None)
+        res.traces_validated += 1
+        wrong = 0 if cl["value"] else 1
+        if wrong not in obs:
+            continue
+        fi, k = obs[wrong]
+        f = funcs[fi]
+        fsrc = "\n".join(lines[f["first_line"] - 1:f["last_line"]])
+        inp = dict(zip([p[0] for p in f["params"]], f["vecs"][k]))
+        key = classify_cli(cl, f, lines)
+        what = ("cppcheck reports %s `%s` at line %d column %d (`%s`), but with %s the flagged expression evaluates to %s in a UB-free "
+                "execution\n%s" % (cl["id"], cl["msg"], cl["line"] - f["first_line"] + 1, cl["col"], lines[cl["line"] - 1].strip(), inp,
+                                   "true" if wrong else "false", fsrc))
+        res.violation(what, dict(kind="cli", id=cl["id"], msg=cl["msg"], function=fsrc, params=f["params"], input=f["vecs"][k],
+                                 stmts=spec_of_stmts(f["stmts"]), rel_line=cl["line"] - f["first_line"] + 1, col=cl["col"], lang=lang),
+                      concrete=True, key=key)
+    return funcs, claims, findings
+
+
+def consts_in_stmts(stmts):
+    out = []
+    def walk_node(n):
+        if n.kind == "lit":
+            tv = lit_type_value(n.text)
+            if tv:
+                out.append(tv[1])
+        for k in n.kids:
+            walk_node(k)
+    def walk(sts):
+        for st in sts:
+            if st[0] == "raw":
+                for m in re.finditer(r"-?\d+", st[1]):
+                    out.append(int(m.group(0)))
+            elif st[0] == "seq":
+                walk(st[1])
+            else:
+                walk_node(st[1])
+                walk(st[2])
+                if st[3]:
+                    walk(st[3])
+    walk(stmts)
+    return out
+
+
+def tree_of(n):
+    if n.kind in ("lit", "var"):
+        return [n.kind, n.text]
+    if n.kind == "un":
+        return ["un", n.op, tree_of(n.kids[0])]
+    return ["bin", n.op, tree_of(n.kids[0]), tree_of(n.kids[1])]
+
+
+def spec_of_stmts(stmts):
+    out = []
+    for st in stmts:
+        if st[0] == "raw":
+            out.append(["raw", st[1]])
+        elif st[0] == "seq":
+            out.append(["seq", spec_of_stmts(st[1])])
+        else:
+            out.append(["if", tree_of(st[1]), spec_of_stmts(st[2]), spec_of_stmts(st[3]) if st[3] else None])
+    return out
+
+
+def build_corpus_stmts(spec, pg):
+    """corpus statement language: ["raw", text] | ["if", <tree>, [stmts], null | [stmts]] | ["seq", [stmts]]; trees as nested lists"""
+    def tree(t):
+        return tuple(tree(x) if isinstance(x, list) else x for x in t)
+    out = []
+    for st in spec:
+        if st[0] == "raw":
+            out.append(("raw", st[1]))
+        elif st[0] == "seq":
+            out.append(("seq", build_corpus_stmts(st[1], pg)))
+        else:
+            out.append(("if", pg.cond(tree(st[1])), build_corpus_stmts(st[2], pg), build_corpus_stmts(st[3], pg) if st[3] else None))
+    return out
+
+
+FLOW_IDS = {"knownConditionTrueFalse", "unsignedLessThanZero", "unsignedPositive", "badBitmaskCheck"}
+PAIR_IDS = {"oppositeInnerCondition", "identicalInnerCondition", "overlappingInnerCondition", "identicalConditionAfterEarlyExit",
+            "multiCondition", "incorrectLogicOperator"}
+
+
+def classify_cli(cl, f, lines):
+    """known-finding key of a refuted CLI verdict (None = not a listed class: reported as a new violation)"""
+    ptypes = dict(f["params"])
+    hz = func_hazards(f["stmts"], ptypes)
+    n = cl["node"]
+    def closed(x):
+        return x.kind == "lit" or (x.kind != "var" and all(closed(k) for k in x.kids))
+    if cl["id"] == "comparisonError" and n.kind == "bin" and closed(n.kids[0]):
+        return "F03c:comparison-known-left-comparator-not-swapped"
+    conv = hz - {"bool-compared-with-int", "const-minus-expr", "mul-by-const"}
+    if "bool-compared-with-int" in hz and cl["id"] in FLOW_IDS | PAIR_IDS:
+        return "F03a:isSameExpression-eqne-known-not-01"
+    if not conv:
+        if (hz & {"const-minus-expr", "mul-by-const"}) and cl["id"] in FLOW_IDS | PAIR_IDS:
+            return "F03i:solveExprValue-bound-not-inverted"
+        return None
+    if cl["id"] == "compareValueOutOfTypeRangeError":
+        return "F03e:compareValueOutOfTypeRange-inexact-comparison"
+    if cl["id"] == "comparisonError":
+        return "F03d:comparison-bitop-inexact"
+    if cl["id"] in PAIR_IDS:
+        return "F03b:isOppositeCond-known-values-inexact-comparison"
+    if cl["id"] in FLOW_IDS:
+        return "F03g:value-flow-verdict-with-integer-conversion-hazard"
+    return None
+
+
+THEOREMS = ["Cppcheck.CondExpr.same_sound", "Cppcheck.CondExpr.same_sound_sim", "Cppcheck.CondExpr.same_sound_counterexample",
+            "Cppcheck.CondExpr.opposite_sound", "Cppcheck.CondExpr.opposite_not_sound", "Cppcheck.CondExpr.opposite_sound_counterexample",
+            "Cppcheck.CondExpr.outOfTypeRange_table_sound", "Cppcheck.CondExpr.outOfTypeRange_interval_sound",
+            "Cppcheck.CondExpr.outOfTypeRange_sound", "Cppcheck.CondExpr.outOfTypeRange_counterexample",
+            "Cppcheck.CondExpr.bitand_compare_table_sound", "Cppcheck.CondExpr.bitor_compare_table_sound",
+            "Cppcheck.CondExpr.bitand_compare_sound", "Cppcheck.CondExpr.bit_compare_swapped_counterexample",
+            "Cppcheck.CondExpr.eval_inRange"]
+
+
+def load_corpus():
     cpath = os.path.join(core.VERIF, "corpus", "C03", "cases.json")
     if os.path.exists(cpath):
-        corpus = json.load(open(cpath)).get("inprocess", [])
-    run_inprocess(ctx, res, 400 if quick else 6000, 40, corpus)
+        return json.load(open(cpath))
+    return {}
+
+
+def run(ctx, res):
+    import time
+    t0 = time.time()
+    core.prove(ctx, res, MODULES, THEOREMS)
+    t1 = time.time()
+    quick = ctx.tier != "thorough"
+    corpus = load_corpus()
+    run_inprocess(ctx, res, 300 if quick else 8000, 32 if quick else 40, corpus.get("inprocess", []))
+    t2 = time.time()
+    run_cli(ctx, res, 50 if quick else 1500, 24 if quick else 32, corpus.get("cli", []), "c")
+    if not quick:
+        run_cli(ctx, res, 500, 32, [], "cpp")
+    t3 = time.time()
+    res.extra["phase_s"] = dict(lean=round(t1 - t0, 1), inprocess=round(t2 - t1, 1), cli=round(t3 - t2, 1))
 
 
 def replay(ctx, res, rd):
-    return 0
+    """re-run one stored case; 1 = it still fails"""
+    kind = rd.get("kind")
+    if kind in ("inprocess-rel", "inprocess-finding"):
+        item = dict(lang=rd["lang"], params=rd["params"], src=rd["src"], inputs=[rd["input"]], name="replay")
+        run_inprocess(ctx, res, 0, 8, [item])
+    elif kind == "cli":
+        item = dict(params=rd["params"], stmts=rd["stmts"], inputs=[rd["input"]], name="replay")
+        run_cli(ctx, res, 0, 8, [item], rd.get("lang", "c"))
+    else:
+        print("replay: nothing to run for this file (no concrete input stored)")
+        return 0
+    for v in res.violations:
+        print("still fails: " + v["what"][:700])
+    print("replay: %d violation(s)" % len(res.violations))
+    return 1 if res.violations else 0
